@@ -881,9 +881,9 @@ def run(tier, seed, replay=None):
 
     sc = float(os.environ.get("C15_SCALE", "1"))        # development knob (mutation experiments); 1 in normal use
     n_key = 0 if replay else int((3000 if thorough else 600) * sc)
-    n_rand = 0 if replay else max(1, int((14 if thorough else 4) * sc))
-    n_adv = 0 if replay else max(1, int((10 if thorough else 3) * sc))
-    cap = 300 if thorough else max(8, int(40 * sc))
+    n_rand = 0 if replay else max(1, int((10 if thorough else 4) * sc))
+    n_adv = 0 if replay else max(1, int((8 if thorough else 3) * sc))
+    cap = 200 if thorough else max(8, int(40 * sc))
     n_par = 0 if replay else int((6000 if thorough else 1200) * sc)
     n_conc = 0 if replay else int((400 if thorough else 64) * sc)
     if sc != 1:
@@ -930,8 +930,8 @@ def run(tier, seed, replay=None):
     # ---- (2) conversations on shared vs fresh instances
     for cfg in ("general", "selfcheck", "exc"):
         sets += gen_sets(cfg, rng, n_rand, n_adv)
-        if thorough and not replay:
-            # one full 3 conversations x 3 turns set per config: all 1680 interleavings
+        if thorough and not replay and cfg == "exc":
+            # one full 3 conversations x 3 turns set (richest config): all 1680 interleavings
             base = [[u("a")], [u("x:y")], [u("q")]]
             r0 = isolated(cfg, base)[0]
             k0 = key_of(r0["req"] + [r0["reply"]])
